@@ -254,7 +254,7 @@ package runtime
 //@   ensures result == (cf.callType == CALL_TYPE_FUNCTION)
 //@ method (*CallFrame).GetModule
 //@   pure
-//@   ensures result == cf.module
+//@   ensures result == cf.module && result != nil
 //@ method (*CallFrame).GetCurrentLine
 //@   pure
 //@   ensures result == cf.currentLine
@@ -496,3 +496,14 @@ package runtime
 //@   ensures [fresh-vm] fresh(result) && vmWF(result) && result.csCount == 0 && len(result.callStack) == 0 && result.csModuleID == 0 - 1 && result.globals == globals &&
 //@             fresh(result.valueStack) && fresh(result.externalLibs) && fresh(result.moduleGraph) && len(result.moduleGraph.modules) == 0 && len(result.moduleGraph.graph) == 0 &&
 //@             (forall k int :: !has(result.valueStack, k)) && (forall n string :: !has(result.externalLibs, n)) && (forall n string :: !has(result.moduleGraph.moduleNameMap, n))
+
+//@ method (*CallFrame).GetSourceTextLine
+//@   requires cf != nil
+//@   modifies nothing
+
+// call stacks hold no nil frame (PushCallFrame is the only store site)
+//@ eleminv *CallFrame nonnil
+
+//@ method (*VM).SetModuleCodeFinder
+//@   requires vmWF(vm)
+//@   modifies vm.moduleCodeFinder
